@@ -136,6 +136,18 @@ def run(ctx):
         if not fin or not (abs(Fr(float(r[1])) - want) <= Fr(1, 10**8) * want + Fr(1, 10**290)):
             det.update({"issue": "tail probability wrong in relative terms", "returned": r[1:], "expected": float(want)})
             ctx.violation("oracle", det, site=site)
+    # ---- very many trials: the central tails of a fair coin in closed form, P(X <= n/2) = P(X >= n/2) = 1/2 + C(n, n/2) / 2^(n+1),
+    #      the central term from Stirling's series (relative error below 1e-14 for n >= 10^6)
+    import math as _m
+    for n in ([2 * 10**6, 10**7, 10**8, 2**31] + ([3 * 10**6 + 2, 2**33] if ctx.thorough() else [])):
+        pmf_c = _m.sqrt(2 / (_m.pi * n)) * (1 - 1 / (4 * n) + 1 / (32 * n * n))
+        for alt_ in ("less", "greater", "two-sided"):
+            want_ = 0.5 + pmf_c / 2 if alt_ != "two-sided" else 1.0
+            r = guarded(utils.binomial_p, n // 2, n, 0.5, alt_, secs=60)
+            ctx.case(("huge-n", n, alt_), True); ctx.count("very-many-trials")
+            if r[0] != "ok" or not (abs(float(r[1]) - want_) <= 1e-11):
+                ctx.violation("oracle", {"call": "binomial_p", "x": n // 2, "n": n, "p": 0.5, "alternative": alt_, "expected": want_,
+                                         "issue": "central tail of a fair coin with very many trials is not 1/2 + C(n, n/2)/2^(n+1)", "returned": str(r[1:])[:100]}, site="binomial_p")
     # ---- sequences of calls with identical arguments in every order of the alternatives: a value must not depend
     #      on which alternative was asked for before
     for _ in range(ctx.n(400, 4000)):
